@@ -349,6 +349,13 @@ theorem step_inv {s : St} (op : Op) (hop : op.faithful = true) (h : Inv s) : Inv
       · exact crashed_inv h
       · exact peek_inv t h
     | switchChecker c => exact ⟨h.clk, h.st, h.saw, h.agree⟩
+    | info t =>
+      simp only [info]
+      split
+      · exact crashed_inv h
+      · split
+        · exact erase_inv t h
+        · exact h
 
 theorem foldl_inv (ops : List Op) (hf : Faithful ops = true) (s : St) (h : Inv s) :
     Inv (ops.foldl (step true) s) := by
